@@ -347,8 +347,9 @@ Proof.
       destruct (decide (c_svc o = "")) as [He|Hne'].
       * rewrite (bool_decide_eq_true_2 _ He). subst name. apply elem_of_list_fmap_1. exact (name_in_node_names _ _ _ _ Esv).
       * rewrite (bool_decide_eq_false_2 _ Hne'). destruct Ho as [|Ho]; [contradiction|].
-        assert (Esv' : services s !! (n, c_svc o) = Some sv) by (rewrite Ho; exact Esv).
-        rewrite <- (Hs o sv eq_refl Hd Hne' Esv'), En. inl.
+        rewrite Ho, Esv. destruct (decide (sv_name sv = c_svcname o)) as [Hco|Hco].
+        -- rewrite <- Hco, En. inl.
+        -- rewrite (bool_decide_eq_false_2 _ Hco), En. inl.
   - (* PChkDel *)
     rewrite !svcs_named_lookup, ES in Hk.
     destruct (services s !! (n, sid)) as [sv|] eqn:Esv; [|contradiction Hk; reflexivity].
